@@ -218,6 +218,7 @@ pub fn run_child(args: &[String], envs: &[(&str, &str)], capture: bool) -> Child
     use std::os::unix::process::ExitStatusExt;
     let mut c = Command::new(self_exe());
     c.args(args);
+    c.env("RUST_BACKTRACE", "0");
     for (k, v) in envs {
         c.env(k, v);
     }
@@ -231,7 +232,7 @@ pub fn run_child(args: &[String], envs: &[(&str, &str)], capture: bool) -> Child
     let tail = |b: &[u8]| {
         let s = String::from_utf8_lossy(b);
         let lines: Vec<&str> = s.lines().collect();
-        let k = lines.len().saturating_sub(6);
+        let k = lines.len().saturating_sub(40);
         lines[k..].join("\n")
     };
     ChildEnd {
@@ -271,6 +272,7 @@ pub fn run_batch(prop: Prop, base: u64, n: u64, nw: usize, known_keys: &[String]
             .arg(&out)
             .arg(if w == 0 { "3" } else { "0" })
             .arg(known_keys.join("|"))
+            .env("RUST_BACKTRACE", "0")
             .stdin(Stdio::null())
             .stdout(Stdio::null())
             .stderr(Stdio::piped());
